@@ -613,6 +613,16 @@ DIRECTED = {
 	'shared-count-and-two-sizeofs':
 		'struct Item\n\tvalue = uint32\n\nstruct Holder\n\tcount = uint8\n\tfirst = array(Item, count)\n\tsecond = array(Item, count)\n\t'
 		'first_size = sizeof(uint16, first)\n\tfirst_size_again = sizeof(uint32, first)\n',
+	# several abstract levels whose descendants have integer members only, ten times under different names: the order in which the set of
+	# struct names is visited (string hashing) must not decide whether a deeper descendant of a marked factory gets marked
+	'deep-abstract-families': ''.join(
+		f'@is_aligned\n@discriminator(kind)\n@initializes(kind, KIND)\nabstract struct Entry{tag}\n\tkind = uint32\n\tflags = uint32\n\n'
+		f'abstract struct Middle{tag}\n\tinline Entry{tag}\n\tmiddle_value = uint64\n\n'
+		f'abstract struct Lower{tag}\n\tinline Middle{tag}\n\tlower_value = uint64\n\n'
+		f'struct Final{tag}\n\tKIND = make_const(uint32, {index + 1})\n\tinline Lower{tag}\n\tpayload = uint64\n\n'
+		f'struct Other{tag}\n\tKIND = make_const(uint32, 100)\n\tinline Entry{tag}\n\tother_value = uint64\n\n'
+		f'struct Holder{tag}\n\tcount = uint8\n\tentries = array(Entry{tag}, count)\n\n'
+		for index, tag in enumerate(['Ash', 'Birch', 'Cedar', 'Elm', 'Fir', 'Hazel', 'Larch', 'Maple', 'Oak', 'Pine'])),
 	'missing-initializer':
 		'@discriminator(kind, version)\nabstract struct Base\n\tkind = uint8\n\tversion = uint8\n\n@initializes(kind, ONE)\nstruct Derived\n\tinline Base\n',
 }
